@@ -887,6 +887,8 @@ class XPathToken(Token[ta.XPathTokenType]):
         elif isinstance(obj, float):
             if math.isnan(obj):
                 return 'NaN'
+            elif not obj and self.parser.version == '1.0':
+                return '0'
             elif math.isinf(obj):
                 return str(obj).upper()
 
